@@ -272,7 +272,12 @@ class World:
                 if not r1 and not r2 and n1 != n2:
                     r, J = refuses(lambda: D.JointDistribution(obj, other))
                     if not r:
-                        self.add(J, i, f"joint({e['label']}+{n2})")
+                        jj = self.add(J, i, f"joint({e['label']}+{n2})")
+                        # ... and conditioned on the added variable straight away (reduces to the first object again)
+                        if n2 in self.values:
+                            r, red = refuses(lambda: J(**{n2: self.values[n2]}))
+                            if not r and red is not None:
+                                self.add(red, jj, f"cond(joint({e['label']}+{n2});{n2})")
         elif kind == "run_sampler" and not is_model:
             self.run_sampler(obj, op)
 
